@@ -47,7 +47,7 @@ MODELLED = ('spatial.get_normal_vector, _normalize_pixel_index_convention, _get_
             'None, number of slices, spacing, origin, slice axis)')
 STRATA = ['perm_all', 'regular', 'unsorted', 'dups', 'gaps', 'jitter', 'shear', 'scrambled', 'inplane', 'hint',
           'malformed', 'normal', 'series', 'plane_sort', 'sort_datasets', 'vol_series', 'vol_multiframe',
-          'mf_geometry']
+          'mf_geometry', 'order_pair', 'int_positions']
 NOT_EXECUTED = ['Segmentation.get_volume (same _prepare_volume_positions_table path, covered by C01/C02 harnesses)',
                 'tiled (slide coordinate system) branch of get_volume: no stacking involved']
 RULE = ('stacks of n <= 8 planes (<= 12 thorough) from integer ranks x spacing along the normal of 24 axis-aligned '
@@ -64,7 +64,10 @@ RULE = ('stacks of n <= 8 planes (<= 12 thorough) from integer ranks x spacing a
         'repeated frame / all coincident), with gaps, both, jitter, shear, hints, queried through get_volume_geometry '
         'with allow_missing_positions and allow_duplicate_positions each passed True / False / not passed (class '
         'default): the full 3 x 3 matrix x both classes on stacks with duplicates, duplicates and a gap, complete and '
-        'with a gap, plus random ones; the same frames in a second order must give the identical geometry. '
+        'with a gap, plus random ones; the same frames in a second order must give the identical geometry (the '
+        'second order is a model-compared case of its own); order_pair: get_volume_positions on the same stack '
+        '(regular, duplicates, gaps, jitter, shear, scrambled, hints, ties) in two orders, both model-compared, same '
+        'verdict / spacing / per-plane index demanded; int_positions: integer-valued stacks passed as Python ints. '
         'non-trivial = more than one distinct plane and the spec decides the case (not within 1e-6 of '
         'a threshold); distinct by case hash')
 EXHAUSTIVE = {'quick': False, 'thorough': False}
@@ -461,7 +464,48 @@ def gen_cases(rng, tier):
                            'badhint', 'jit', 'shear', 'single', 'bothtol'])
         cases.append(_mk_geometry(rng, 'seg' if rng.random() < 0.35 else 'image', mode, rng.choice(tri),
                                   rng.choice(tri), rng.randint(2, 6)))
+    # -- order_invariant, model-compared on BOTH orders: the same get_volume_positions stack (regular or not:
+    #    duplicates, gaps, jitter, shear, scrambled, hints) passed in a second order; the model evaluates both
+    #    orders (theorem C11_order_invariant), the oracle demands the same verdict / spacing and that every
+    #    plane keeps its index
+    pool = [c for c in cases if c['kind'] in ('regular', 'dups', 'gaps', 'jitter', 'shear', 'scrambled', 'hint',
+                                              'inplane')
+            and c['opts']['sort'] and len(c['pos']) >= 2]
+    for c in rng.sample(pool, min(len(pool), 2 * N)):
+        order = _perm(rng, len(c['pos']))
+        if rng.random() < 0.25:
+            order = list(reversed(range(len(c['pos']))))
+        cases.append(dict(c, kind='order_pair', perm=order))
+    # -- the reordered frames of mf_geometry cases as cases of their own (so the model sees the second order too)
+    for c in [c for c in cases if c['kind'] == 'mf_geometry' and c.get('perm_seed') is not None and len(c['pos']) > 1]:
+        import random as _random
+        order = list(range(len(c['pos'])))
+        _random.Random(c['perm_seed']).shuffle(order)
+        d = _permuted(c, order)
+        d['perm_seed'] = None
+        d['meta'] = dict(d['meta'], note=d['meta']['note'] + ' (frames reordered)')
+        cases.append(d)
+    # -- integer-valued stacks passed as Python ints (any array-like is documented as accepted)
+    for _ in range(max(6, N // 6)):
+        n = rng.randint(2, 5)
+        rc, cc = rng.choice(AXIS_ORIENTS)
+        c = _mk(rng, 'int_positions', _perm(rng, n), rc=rc, cc=cc, s=rng.randint(1, 5),
+                opts={'sort': rng.random() < 0.8, 'dups': False, 'missing': False})
+        frac = [x - math.floor(x) for x in c['pos'][0]]      # common fractional part of the (dyadic) origin
+        c['pos'] = [[int(round(x - f)) for x, f in zip(p, frac)] for p in c['pos']]
+        cases.append(c)
     return cases
+
+
+def _permuted(c, order):
+    """the same case with its planes / frames passed in `order`"""
+    m = c['meta']
+    d = dict(c, pos=[c['pos'][i] for i in order],
+             meta=dict(m, k=[m['k'][i] for i in order], jit=[m['jit'][i] for i in order],
+                       lat=[m['lat'][i] for i in order]))
+    if c.get('resc') is not None:
+        d['resc'] = [c['resc'][i] for i in order]
+    return d
 
 
 def _mk_geometry(rng, target, mode, km, kd, n):
@@ -744,6 +788,10 @@ def run_impl(c):
         # get_volume_positions kinds
         kw = _kw(c)
         kw['spacing_hint'] = c['opts']['hint']
+        if k == 'order_pair':
+            d = _permuted(c, c['perm'])
+            return [catch(lambda: _canon(spatial.get_volume_positions(c['pos'], _orient(c), **kw))),
+                    catch(lambda: _canon(spatial.get_volume_positions(d['pos'], _orient(c), **kw)))]
         return catch(lambda: _canon(spatial.get_volume_positions(c['pos'], _orient(c), **kw)))
 
 
@@ -838,6 +886,10 @@ def coq_term(c):
         ob = lambda x: 'None' if x is None else f'(Some {_b(x)})'
         return (f"(run_mf_geometry {ps} {rc} {cc} {_oq(c['opts']['hint'])} {_oq(c['opts']['rtol'])} "
                 f"{_oq(c['opts']['atol'])} {_b(c['target'] == 'seg')} {ob(c['kw_missing'])} {ob(c['kw_dups'])})")
+    if k == 'order_pair':
+        ps2 = '[' + '; '.join(_v3(c['pos'][i]) for i in c['perm']) + ']'
+        o = _opts(c, c['opts']['hint'])
+        return f"(VL [run_gvp {ps} {rc} {cc} {o}; run_gvp {ps2} {rc} {cc} {o}])"
     return f"(run_gvp {ps} {rc} {cc} {_opts(c, c['opts']['hint'])})"
 
 
@@ -1134,6 +1186,23 @@ def oracle(c, out):
             return f'{what}: {nsl} slices, expected {max(exp[2]) + 1}'
         r = _geom_check(c, sign, sp, org, sv, exp[1], c['pos'][exp[2].index(0)])
         return f'{what}: {r}' if r else None
+    if k == 'order_pair':
+        out1, out2 = out
+        d = _permuted(c, c['perm'])
+        r = (_match(out1, _expected(c), 'get_volume_positions') or _numpy_check(c, out1) or
+             _match(out2, _expected(d), 'get_volume_positions (second order)') or _numpy_check(d, out2))
+        if r:
+            return r
+        if _expected(c) == ANY:
+            return None        # order of planes at equal distance / threshold: unspecified
+        # independent of the spec: same verdict, same spacing, every plane keeps its index
+        if isinstance(out1, Err) or isinstance(out2, Err) or out1 is None or out2 is None:
+            return None if out1 == out2 else f'verdict depends on the input order: {out1!r} / order {c["perm"]}: {out2!r}'
+        if out1[0] != out2[0]:
+            return f'spacing depends on the input order: {out1[0]} / {out2[0]}'
+        if [out1[1][i] for i in c['perm']] != list(out2[1]):
+            return f'indices depend on the input order: {out1[1]} / order {c["perm"]}: {out2[1]}'
+        return None
     # get_volume_positions kinds
     exp = _expected(c)
     return _match(out, exp, 'get_volume_positions') or _numpy_check(c, out)
@@ -1186,6 +1255,8 @@ def shrink(c):
                            lat=c['meta']['lat'][:i] + c['meta']['lat'][i + 1:]))
         if d.get('resc') is not None:
             d['resc'] = c['resc'][:i] + c['resc'][i + 1:]
+        if d.get('perm') is not None:
+            d['perm'] = [j - (j > i) for j in c['perm'] if j != i]
         if d.get('orient_break') is not None:
             if d['orient_break'] == i:
                 continue
